@@ -28,8 +28,8 @@ Proof. exact read_string_write. Qed.
     [rt_guard now ws wl ds] (decidable, Model/Rdb.v): 16 databases; per database fewer than
     2^32 keys, all distinct; every key not yet expired at the save has a length below 2^32, a
     well-formed value (lengths and counts below 2^32; a list is non-empty and does not start
-    with the stream marker; set members / hash fields distinct; a sorted set is non-empty and
-    is what the skip list holds, NaN scores included; a stream is non-empty, its IDs strictly
+    with the stream marker; set members / hash fields distinct; a sorted set is non-empty, has
+    no NaN score and is what the skip list holds (sorted by (score, member), no member twice); a stream is non-empty, its IDs strictly
     increase from above 0-0, every entry has at least one field and distinct field names) and,
     if it has a deadline, an expiry time that fits u64 and lies after the load time [wl].
     [aged_db]: the keys alive at the save, the same values (streams without their consumer
@@ -53,20 +53,21 @@ Theorem c09_deadline_preserved :
   forall now now' ws wl t, now' - now = wl - ws -> shift now now' ws wl t = t.
 Proof. exact shift_same_speed. Qed.
 
-(** ---- non-vacuity: a dataset with all six types, binary content, TTLs, NaN and infinite
-    scores satisfies the guard ---- *)
+(** ---- non-vacuity: a dataset with all six types, binary content, TTLs, infinite and
+    signed-zero scores satisfies the guard ---- *)
 Definition mkdb (l : list (bytes * entry)) : db := {| d_data := l; d_index := [] |}.
 Definition in_db0 (l : list (bytes * entry)) : list db := mkdb l :: repeat empty_db 15.
 Definition ent (v : value) (t : option Z) : entry := {| e_val := v; e_exp := t |}.
 Definition f_one := 4607182418800017408.          (* 1.0 *)
 Definition f_pinf := 9218868437227405312.         (* +inf *)
 Definition f_qnan := 9221120237041090560.         (* NaN *)
+Definition f_nzero := 9223372036854775808.        (* -0.0 *)
 Definition example_ds : list db :=
   mkdb [ (bs "s", ent (VStr [0; 255; 13; 10]) (Some 101000));
          ([], ent (VList [bs "a"; marker; []]) None);
          (marker, ent (VSet [bs "x"; bs "y"]) (Some 5000000));
          (bs "h", ent (VHash [(bs "f", bs "1"); (bs "g", [])]) None);
-         (bs "z", ent (VZSet [(bs "m", f_one); (bs "a", f_pinf); (bs "b", f_qnan); (bs "c", f_qnan)]) None);
+         (bs "z", ent (VZSet [(bs "a", f_nzero); (bs "b", 0); (bs "m", f_one); (bs "a2", f_pinf)]) None);
          (bs "st", ent (VStream {| s_entries := [((1, 0), [(bs "f", bs "v")]); ((1, 1), [(bs "g", bs "w"); (bs "h", [])])];
                                    s_last := (1, 1); s_groups := [] |}) (Some 200000));
          (bs "gone", ent (VStr (bs "expired before the save")) (Some 500)) ]
@@ -113,14 +114,16 @@ Example c09_stream_entry_without_fields_refuted :
   load_status r = LErr /\ get_entry (nth 0 (load_dbs r) empty_db) (bs "zz") = None.
 Proof. vm_compute. split; reflexivity. Qed.
 
-(** NaN scores as such are restored (see [c09_guard_nonvacuous]); what is not restored is the
-    defective skip-list state in which a member re-scored from NaN has two nodes (a C04 defect) *)
-Example c09_nan_duplicate_node_refuted :
-  let ds := in_db0 [(bs "z", ent (VZSet [(bs "m", f_one); (bs "m", f_qnan)]) None)] in
+(** NaN scores: zadd refuses them (since the repair beb3269 of the NaN-node defect), so a dump
+    that holds one (written before the repair, or damaged) stops the load at that item: the
+    sorted set is cut short and every later key is lost.  The guard therefore excludes NaN. *)
+Example c09_nan_score_refuted :
+  let ds := in_db0 [(bs "z", ent (VZSet [(bs "m", f_one); (bs "n", f_qnan)]) None); (bs "after", ent (VStr (bs "v")) None)] in
   let r := load true 0 1700000000000 (save (bs "0.1.0") 0 0 1700000000000 ds) in
-  load_status r = LOk /\
-  get_entry (nth 0 (load_dbs r) empty_db) (bs "z") = Some (ent (VZSet [(bs "m", f_qnan)]) None).
-Proof. vm_compute. split; reflexivity. Qed.
+  load_status r = LErr /\
+  get_entry (nth 0 (load_dbs r) empty_db) (bs "z") = Some (ent (VZSet [(bs "m", f_one)]) None) /\
+  get_entry (nth 0 (load_dbs r) empty_db) (bs "after") = None.
+Proof. vm_compute. repeat split; reflexivity. Qed.
 
 (** class save-ttl-overflow: the writer's expiry arithmetic overflows u64 (panic with overflow
     checks; without them the timestamp wraps and the key is reloaded immortal) *)
